@@ -64,6 +64,21 @@ CHECKS["C18"] = ("model_checking",
          "All interleavings of the driver (one action per critical section of buildobj/buildexe: mkstemp, spawn, close, wait returning any zombie, kill, unlink, exit) and its children for <= 3-4 stages, <= 2 inputs, every failing stage x failure mode (spawn failure, exit 1 before read / mid write / after, SIGSEGV, SIGKILL) and link failure: non-zero exit, no link, output and temporaries removed, children reaped, no hang (FairSpec => <>Exited). Each configuration is realised on the real driver at two delay scales and observed (status, surviving files, processes, timeout); straced runs must be behaviours of the model.",
          "trusted: sleep-steered orderings of stub tools; the strace event extraction; liveness assumes a stage that exits 0 has drained its input (the no-drain hang is recorded as an observation). Known: temporaries of earlier inputs / on link spawn failure are leaked.",
          "DESIGN.md §5 C18")
+CHECKS["C09"] = ("model_checking",
+         "TLA+ declarative linkage resolution (C11 6.2.2 / 6.9 / 6.9.2 / 6.7.4p7: Linkage.tla Resolve) vs transcription of decl.c getlinkage/declcommon/decl/tentative list with named deviations, model-checked by TLC on all declaration histories; histories replayed into cproc-qbe; H6 trace validation (Trace_Linkage.tla)",
+         "For every history of <= 3 (quick) / <= 4 (thorough) declarations of one identifier over 24 file-scope x 12 block-scope forms x scope placements, plus asm-label / object-function mixes and random 3-identifier units, TLC checks that the repaired model refines Resolve, that at most one definition is emitted per entity and that exported implies external linkage. Each history is rendered with a use after every declaration and compiled: the export/local/thread definitions, the .L naming, what each use resolves to, undefined references and the exit status must equal the spec's. Every declcommon decision, tentative enqueue and emitted definition of real compilations must be a step of the model.",
+         "trusted: TLC, ilparse, the renderer; Resolve audited on every judged unit against gcc -std=c11 -pedantic-errors + nm (two justified exception classes; disagreement = machinery error). One type only; x86_64-sysv; UB classes only required to exit 0/1; longest histories replayed on a sample.",
+         "DESIGN.md §5 C09")
+CHECKS["C16"] = ("model_checking",
+         "TLA+ hash-table (Map.tla, quantified over all hash functions), scope-chain (Scope.tla, CScope.tla) and literal-pool (Pool.tla) specs model-checked by TLC; state graph replayed into /repo/map.c with engineered colliding keys; TLC-generated scoping programs and pool units compiled and read off the IL; recorded map histories (Trace_Map.tla) and H8 scope traces (Trace_Scope.tla) validated by TLC",
+         "Map.tla refines a dictionary for every hash function (4 keys, caps 4->8; 6 keys 8->16 by simulation); every (state, op) is executed by the real map.c with keys whose real hash has the model's low bits and with forged full-hash collisions (results and full slot array compared); 10^5-op histories judged by Trace_Map.tla; CScope.tla programs (exhaustive <= 3/4 items, random, 200-deep, 50 000 identifiers) decide what every use of an identifier, tag, label, typedef or macro must denote; Pool.tla decides all literal pairs; every scope.c call on the tests and generated programs must be a step of Scope.tla.",
+         "trusted: cmap.c dump, renderer, ilparse, renaming-invariance for scaled copies, TLC. A layout-only divergence of map.c (dictionary still correct) is reported as machinery exit 2, not as a violation.",
+         "DESIGN.md §5 C16")
+CHECKS["C20"] = ("exploration",
+         "TLA+ monitor (Pure.tla) with trace validation of run logs over TLC-enumerated pairwise-covering environment arrays (PureLattice.tla), plus model-checked structural invariants (MapPure.tla hash independence, Ids.tla counter-only ids) bound by hash-substituted binaries and id hook traces",
+         "Determinism of (stdout, normalised stderr, status) is checked on explored inputs x environments: every run of the real binary is an event of a log that TLC must accept as a behaviour of Pure.tla. Environments: 15 dimensions (locale variables, TZ, MALLOC_PERTURB_, malloc tunables, ASLR, cwd, argv0, stdin vs path, -o vs stdout, extra env, stack limit, open fds, valgrind, binary incl. hash-substituted and stage-2 builds); quick = a model-checked pairwise-covering set + memcheck sample, thorough = 4 covering arrays and the full 138 240-element product on 3 inputs. Uninitialised-value reports are forbidden events. Hash independence is model-checked, replayed into map.c under arbitrary hash functions and enforced end to end; the id discipline is model-checked and bound by H10 traces.",
+         "trusted: valgrind, sha256, glibc tunables, stderr normalisation (file name and argv[0] are inputs). Only C/C.UTF-8/POSIX locales exist here (setlocale/getenv use is caught by an import deny-list). Determinism beyond explored inputs/environments is not decided.",
+         "DESIGN.md §5 C20")
 NOT_YET = {}
 
 def main():
